@@ -48,6 +48,22 @@ var opKinds = []string{"start", "start", "stop", "stop", "stopwait", "verify", "
 
 func genLife(t *rapid.T) LifeCase {
 	c := LifeCase{L: model.GenLayout(t, model.LayoutOpts{MaxTotal: 200 << 10, MaxPieces: 32, MaxFiles: 4})}
+	if rapid.IntRange(0, 2).Draw(t, "completeFirst") > 0 {
+		// reach a complete (or partially downloaded) torrent first, stop it, and touch its files: the histories in which
+		// the client has to notice that what it believes is no longer on the disk
+		c.Ops = append(c.Ops, Op{Op: "start"}, Op{Op: "addpeer"})
+		if rapid.IntRange(0, 3).Draw(t, "partial") == 0 {
+			c.Ops = append(c.Ops, Op{Op: "sleep", Ms: rapid.SampledFrom([]int{5, 50, 150}).Draw(t, "partialMs")})
+		} else {
+			c.Ops = append(c.Ops, Op{Op: "waitseed"})
+		}
+		c.Ops = append(c.Ops, Op{Op: "stopwait"})
+		c.Ops = append(c.Ops, Op{Op: rapid.SampledFrom([]string{"corrupt", "truncate", "delete-some", "delete-all", "delete-all", "delete-some", "sleep"}).Draw(t, "mut"), Sel: rapid.IntRange(0, 1000).Draw(t, "mutSel")})
+		c.Ops = append(c.Ops, Op{Op: rapid.SampledFrom([]string{"start", "start", "verifywait", "verify"}).Draw(t, "after")})
+		if rapid.Bool().Draw(t, "again") {
+			c.Ops = append(c.Ops, Op{Op: "addpeer"}, Op{Op: "waitseed"})
+		}
+	}
 	n := rapid.IntRange(3, 18).Draw(t, "nops")
 	for i := 0; i < n; i++ {
 		op := Op{Op: rapid.SampledFrom(opKinds).Draw(t, "op")}
